@@ -68,13 +68,13 @@ package cache
 //@ modset lruState(l) = l.currentSize, l.reservedSize, l.uncompressedSize, l.totalDiskSizePeak, l.ll.seq, mapof(l.cache),
 //@    #list.Element.owner, #list.Element.Value, #disk.lruItem.size, #disk.lruItem.sizeOnDisk, #disk.lruItem.legacy, #disk.lruItem.random, #disk.entry.key, evq, qobs
 
-//@ extern (*sync.Mutex).Lock(m)
+//@ extern (*sync.Mutex).Lock@cache/disk.diskCache.mu(m)
 //@   requires nodeadlock: !locked
 //@   modifies locked, lruState(lruOf(m))
 //@   ensures locked
 //@   ensures lruInv(lruOf(m)) && lruOf(m).reservedSize >= held
 
-//@ extern (*sync.Mutex).Unlock(m)
+//@ extern (*sync.Mutex).Unlock@cache/disk.diskCache.mu(m)
 //@   requires islocked: locked
 //@   requires inv: lruInv(lruOf(m))
 //@   requires guarantee: lruOf(m).reservedSize >= held
@@ -86,3 +86,54 @@ package cache
 //@ iface (github.com/buchgr/bazel-remote/v2/cache.Proxy).Contains(p, ctx, kind, hash, size)
 //@   gmodifies pxN, pxFound, pxSize
 //@   gensures pxN == old(pxN) + 1 && pxFound == result0 && pxSize == result1
+
+// pxPuts counts hand-overs to the backend.
+//@ ghost pxPuts Int
+//@ iface (github.com/buchgr/bazel-remote/v2/cache.Proxy).Put(p, ctx, kind, hash, logicalSize, sizeOnDisk, rc)
+//@   gmodifies pxPuts
+//@   gensures pxPuts == old(pxPuts) + 1
+
+// Any combination of (reader, size, error) may come back.
+//@ iface (github.com/buchgr/bazel-remote/v2/cache.Proxy).Get(p, ctx, kind, hash, size)
+//@   pure
+
+// Files. tmpOpen counts temp files created by the current invocation that were
+// neither removed nor adopted by the index; tmpName/tmpRandom identify the last one.
+// ASSUMED: removing one's own temp file succeeds (a failing unlink is only logged).
+//@ ghost tmpOpen Int
+//@ ghost tmpName GStr
+//@ ghost tmpRandom GStr
+//@ ghost adopted Int
+
+//@ extern os.OpenFile(name, flag, perm)
+//@   ensures result1 == nil ==> (result0 != nil && fileName(ref(result0)) == name)
+//@   ensures result1 != nil ==> result0 == nil
+
+//@ extern os.Open(name)
+//@   ensures result1 == nil ==> (result0 != nil && fileName(ref(result0)) == name)
+//@   ensures result1 != nil ==> result0 == nil
+
+//@ extern os.Remove(name)
+//@   gmodifies tmpOpen
+//@   gensures (name == tmpName ==> tmpOpen == old(tmpOpen) - 1) && (name != tmpName ==> tmpOpen == old(tmpOpen))
+
+//@ extern (*os.File).Name(f)
+//@   pure
+//@   ensures result == fileName(ref(f))
+
+//@ extern (*os.File).Close(f)
+//@   pure
+
+//@ extern (*os.File).Sync(f)
+//@   pure
+
+//@ extern path.Join(elem)
+//@   pure
+
+//@ extern strconv.Itoa(i)
+//@   pure
+//@   ensures len(result) >= 1
+
+// ASSUMED: no stream is longer than 2^62 bytes.
+//@ extern io.Copy(dst, src)
+//@   ensures 0 <= result0 && result0 <= B62()
